@@ -2,11 +2,12 @@
 C14 — Truncated input and failed writes are always reported, never accepted.
 
 Property theorems only (helper lemmas live in Proofs/).  Quantifiers: every value of every serializable
-type with a proven codec (integers, pairs, vectors of them, byte vectors, strings, optional values, raw /
-integer vectors, support structures, plain bitvectors with any subset of supports) × **every truncation
-point** `k` in `0 .. 8*size-1` at **byte** granularity for `load` and `skip_option`, and `0 .. size-1` at
-element granularity for the memory-mapped views (a map is element-addressed) × every prefix `pre` of the
-file before the structure; both arithmetic modes for the views (the loaders have no arithmetic);
+type (integers, pairs, vectors of them, byte vectors, strings, optional values, raw / integer vectors, support
+structures, plain bitvectors with any subset of supports, sparse vectors, run-length vectors, the wavelet matrix
+and its core) that satisfies the type's serialization invariant × **every truncation point** `k` in
+`0 .. 8*size-1` at **byte** granularity for `load` and `skip_option`, and `0 .. size-1` at element granularity for the memory-mapped views (a map is element-addressed) × every prefix `pre` of the
+file before the structure; both arithmetic modes for the views and for the run-length loader `rlC m` (the
+other loaders have no arithmetic);
 for the writers: every buffer size, every valid sequence of pushes, every write budget (`some b` = the sink
 accepts `b` more body elements and then fails; `none` = unlimited).
 
@@ -14,18 +15,28 @@ accepts `b` more body elements and then fails; `none` = unlimited).
 `oob`, and not `ok` of some structure.  For the writers the outcome of a run that could not write all its
 data is the documented `unwrap` panic of a push or the `io::Error` of `close`, never `ok`.
 
+The composite structures (lemmas in Proofs/Codec2) are covered for every value satisfying `Codec2.sparseWF` /
+`wmCoreWF` / `wmWF` / `rlWF m` (or the weaker `rlWFg m`) — the invariants are spelled out in the header of
+Props/C06; every value the builders build satisfies them (`Codec2.ofValues_sparseWF`, `ofValues_wmCoreWF`,
+`ofValues_wmWF`, `build_rlWF`), under file-size side conditions only.  As in C06, nothing is claimed about values
+that violate the invariant (e.g. a record whose unstored parts do not match its stored parts): they are not
+serializations of anything the library can hold.
+
 **Partial / by correspondence only** (see the end of the file):
- * the composite codecs `sparseC`, `rlC`, `wmCoreC`, `wmC` have no proven prefix law;
  * `Serialize::serialize` into a failing `Write` sink: the model's `ser` is a pure function (the element list),
    so "the error of the sink is returned" is not expressible for it; it is checked by the driver.  What is
    proven is the consequence that matters for data integrity: whatever strict prefix of the bytes reached the
    file, loading it is refused (the theorems below), and the buffered *writers*, whose sink is modelled,
    never report success for an incomplete file.
+(Scope note: memory-mapped views exist, in the crate and in the model, only for the vector-like types of the
+"memory-mapped views" section below; there is none for the composite structures, so that clause has no composite
+instance.)
 -/
 import Sds.Proofs.Codec
 import Sds.Proofs.Supports
 import Sds.Proofs.Mapper
 import Sds.Proofs.Writer
+import Sds.Proofs.Codec2
 import Sds.Generated.SerConsts
 
 namespace Sds.C14
@@ -134,6 +145,112 @@ theorem truncated_load_never_ok {α} (c : Codec α) (W : α → Prop) (hc : Lawf
     (k : Nat) (hk : k < 8 * c.size x) (y : α) (rest : Elems) :
     c.load (ofBytes ((toBytes (c.ser x)).take k)) ≠ ok (y, rest) :=
   pfx_bytes hc x hx k hk y rest
+
+/-! ### composite structures: sparse vector, run-length vector, wavelet-matrix core, wavelet matrix
+
+For **every value satisfying the serialization invariant** of its type (`Codec2.sparseWF`, `Codec2.wmCoreWF`,
+`Codec2.wmWF`, `Codec2.rlWF m` / `Codec2.rlWFg m` — spelled out in the header of Props/C06), then for everything
+the builders build.  Element level: every `j < size`; byte level: every `k < 8 * size`.  The loaders of these
+types run consistency checks (`Err(InvalidData)`) and, for the run-length vector, rebuild the sample indexes with
+checked arithmetic; on a truncated file none of that is reached: the outcome is `Err(UnexpectedEof)`. -/
+
+/-- the four composite codecs obey the strong prefix law, so the generic statements (`truncated_load_reports_eof`,
+`truncated_option`, `truncated_skip_option`) apply to them and to `Option`s of them -/
+theorem composite_codecs_report_eof (m : Mode) :
+    LawfulP IsEof sparseC Codec2.sparseWF ∧ LawfulP IsEof wmCoreC Codec2.wmCoreWF ∧
+    LawfulP IsEof wmC Codec2.wmWF ∧ LawfulP IsEof (rlC m) (Codec2.rlWF m) ∧
+    LawfulP IsEof (rlC m) (Codec2.rlWFg m) ∧ (∀ v, Codec2.rlWF m v → Codec2.rlWFg m v) :=
+  ⟨Codec2.sparseC_lawfulEof, Codec2.wmCoreC_lawfulEof, Codec2.wmC_lawfulEof, Codec2.rlC_lawfulEof m,
+    Codec2.rlC_lawfulEof_g m, fun _ h => h.general⟩
+
+theorem truncated_sparse_vector (s : Sparse) (hs : Codec2.sparseWF s) :
+    (∀ j, j < sparseC.size s → sparseC.load ((sparseC.ser s).take j) = fault (.err .eof)) ∧
+    (∀ k, k < 8 * sparseC.size s →
+      sparseC.load (ofBytes ((toBytes (sparseC.ser s)).take k)) = fault (.err .eof)) :=
+  ⟨fun j hj => Codec2.sparseC_lawfulEof.pfx_eof s j hs hj, fun k hk => Codec2.sparse_pfx_bytes_eof s hs k hk⟩
+
+theorem truncated_wavelet_matrix_core (c : WMCore) (hc : Codec2.wmCoreWF c) :
+    (∀ j, j < wmCoreC.size c → wmCoreC.load ((wmCoreC.ser c).take j) = fault (.err .eof)) ∧
+    (∀ k, k < 8 * wmCoreC.size c →
+      wmCoreC.load (ofBytes ((toBytes (wmCoreC.ser c)).take k)) = fault (.err .eof)) :=
+  ⟨fun j hj => Codec2.wmCoreC_lawfulEof.pfx_eof c j hc hj, fun k hk => Codec2.wmCore_pfx_bytes_eof c hc k hk⟩
+
+theorem truncated_wavelet_matrix (w : WM) (hw : Codec2.wmWF w) :
+    (∀ j, j < wmC.size w → wmC.load ((wmC.ser w).take j) = fault (.err .eof)) ∧
+    (∀ k, k < 8 * wmC.size w → wmC.load (ofBytes ((toBytes (wmC.ser w)).take k)) = fault (.err .eof)) :=
+  ⟨fun j hj => Codec2.wmC_lawfulEof.pfx_eof w j hw hj, fun k hk => Codec2.wm_pfx_bytes_eof w hw k hk⟩
+
+/-- `RLVector`, both modes, under the weaker invariant `rlWFg m` (hence under `rlWF m`) -/
+theorem truncated_run_length_vector (m : Mode) (v : RL) (hv : Codec2.rlWFg m v) :
+    (∀ j, j < (rlC m).size v → (rlC m).load (((rlC m).ser v).take j) = fault (.err .eof)) ∧
+    (∀ k, k < 8 * (rlC m).size v →
+      (rlC m).load (ofBytes ((toBytes ((rlC m).ser v)).take k)) = fault (.err .eof)) :=
+  ⟨fun j hj => (Codec2.rlC_lawfulEof_g m).pfx_eof v j hv hj,
+    fun k hk => pfx_bytes_eof (Codec2.rlC_lawfulEof_g m) v hv k hk⟩
+
+/-- the four together, byte level (this is the statement formerly listed as missing) -/
+theorem truncated_composite_structures (m : Mode) (s : Sparse) (c : WMCore) (w : WM) (v : RL)
+    (hs : Codec2.sparseWF s) (hc : Codec2.wmCoreWF c) (hw : Codec2.wmWF w) (hv : Codec2.rlWF m v) :
+    (∀ k, k < 8 * sparseC.size s →
+      sparseC.load (ofBytes ((toBytes (sparseC.ser s)).take k)) = fault (.err .eof)) ∧
+    (∀ k, k < 8 * wmCoreC.size c →
+      wmCoreC.load (ofBytes ((toBytes (wmCoreC.ser c)).take k)) = fault (.err .eof)) ∧
+    (∀ k, k < 8 * wmC.size w → wmC.load (ofBytes ((toBytes (wmC.ser w)).take k)) = fault (.err .eof)) ∧
+    (∀ k, k < 8 * (rlC m).size v →
+      (rlC m).load (ofBytes ((toBytes ((rlC m).ser v)).take k)) = fault (.err .eof)) :=
+  ⟨(truncated_sparse_vector s hs).2, (truncated_wavelet_matrix_core c hc).2, (truncated_wavelet_matrix w hw).2,
+    (truncated_run_length_vector m v hv.general).2⟩
+
+/-- a sparse vector, a run-length vector and a wavelet matrix written back to back and loaded in sequence: every
+strict byte prefix of the whole stream — wherever the cut falls, in whichever structure — is refused with `eof` -/
+theorem truncated_composite_stream (m : Mode) (s : Sparse) (v : RL) (w : WM)
+    (hs : Codec2.sparseWF s) (hv : Codec2.rlWF m v) (hw : Codec2.wmWF w) (k : Nat)
+    (hk : k < 8 * (sparseC.size s + ((rlC m).size v + wmC.size w))) :
+    (seqC sparseC (seqC (rlC m) wmC)).load
+      (ofBytes ((toBytes (sparseC.ser s ++ ((rlC m).ser v ++ wmC.ser w))).take k)) = fault (.err .eof) :=
+  Codec2.composite_pfx_bytes_eof m s v w hs hv hw k (by
+    simp only [Codec.size] at hk; simpa only [List.length_append] using hk)
+
+/-! #### everything the builders build (hypotheses as in the builder-level theorems of Props/C06) -/
+
+/-- `SparseVector` built from sorted positions (set or multiset mode, every admissible low width) -/
+theorem truncated_built_sparse_vector (w n : Nat) (multi : Bool) (P : List Nat) (hw1 : 1 ≤ w)
+    (hw : w ≤ 63) (hn : n < 2 ^ 64) (hm : P.length < 2 ^ 63)
+    (hsorted : if multi then sortedLe P = true else sortedStrict P = true) (hbound : ∀ p ∈ P, p < n)
+    (hhigh : P.length + Sparse.getBuckets n w < 2 ^ 63) (hlow : P.length * w < 2 ^ 64) :
+    ∃ s, Sparse.ofValues w n multi P = ok s ∧
+      (∀ j, j < sparseC.size s → sparseC.load ((sparseC.ser s).take j) = fault (.err .eof)) ∧
+      (∀ k, k < 8 * sparseC.size s →
+        sparseC.load (ofBytes ((toBytes (sparseC.ser s)).take k)) = fault (.err .eof)) := by
+  obtain ⟨s, h1, _, hwf⟩ := Codec2.ofValues_sparseWF w n multi P hw1 hw hn hm hsorted hbound hhigh hlow
+  exact ⟨s, h1, truncated_sparse_vector s hwf⟩
+
+/-- the core built by `WaveletMatrix::from` -/
+theorem truncated_built_wavelet_matrix_core (V : List Nat) (hlen : V.length < 2 ^ 63) :
+    (∀ j, j < wmCoreC.size (WMCore.ofValues V) →
+      wmCoreC.load ((wmCoreC.ser (WMCore.ofValues V)).take j) = fault (.err .eof)) ∧
+    (∀ k, k < 8 * wmCoreC.size (WMCore.ofValues V) →
+      wmCoreC.load (ofBytes ((toBytes (wmCoreC.ser (WMCore.ofValues V))).take k)) = fault (.err .eof)) :=
+  truncated_wavelet_matrix_core _ (Codec2.ofValues_wmCoreWF V hlen)
+
+/-- the wavelet matrix built by `WaveletMatrix::from` -/
+theorem truncated_built_wavelet_matrix (V : List Nat) (hV : ∀ v, v ∈ V → v < 2 ^ 64)
+    (hlen : V.length < 2 ^ 63) (hfirst : (V.foldl max 0 + 1) * 64 < 2 ^ 64) :
+    (∀ j, j < wmC.size (WM.ofValues V) →
+      wmC.load ((wmC.ser (WM.ofValues V)).take j) = fault (.err .eof)) ∧
+    (∀ k, k < 8 * wmC.size (WM.ofValues V) →
+      wmC.load (ofBytes ((toBytes (wmC.ser (WM.ofValues V))).take k)) = fault (.err .eof)) :=
+  truncated_wavelet_matrix _ (Codec2.ofValues_wmWF V hV hlen hfirst)
+
+/-- the run-length vector converted from the builder reached by **any accepted history** of `try_set` /
+`set_len` / `set_bit` calls, both modes -/
+theorem truncated_built_run_length_vector (m : Mode) (calls : List RL.BCall)
+    (hc : ∀ c ∈ calls, RL.callArgsOk c) (b : RLBuilder) (hb : RL.runBCalls m calls {} = ok b) (v : RL)
+    (hv : RL.ofBuilder m b = ok v) (hsize : 128 * v.samples.len < 2 ^ 64) :
+    (∀ j, j < (rlC m).size v → (rlC m).load (((rlC m).ser v).take j) = fault (.err .eof)) ∧
+    (∀ k, k < 8 * (rlC m).size v →
+      (rlC m).load (ofBytes ((toBytes ((rlC m).ser v)).take k)) = fault (.err .eof)) :=
+  truncated_run_length_vector m v (Codec2.build_rlWF m calls hc b hb v hv hsize).general
 
 /-! ### skipping an optional structure that the prefix cuts short -/
 
@@ -262,20 +379,17 @@ theorem close_ok_means_file_complete (w : RawWriter) (ho : w.isOpen = true) (hI 
 
 /-! ### partial: what is covered by correspondence testing only
 
-Full intended statement, composite structures: for `c ∈ {sparseC, rlC, wmCoreC, wmC}`, every value `x` the
-library can build and every `k < 8 * c.size x`:
-  `∃ e, c.load (ofBytes ((toBytes (c.ser x)).take k)) = fault (.err e)`  (an error, never a panic or a value).
-Missing: these four codecs are not proven `Lawful` / `LawfulP IsEof` (only the round-trip half is proven, for
-`sparseC`, `wmCoreC`, `wmC`, in C06).  Their loaders are compositions of the proven ones (`usizeC`,
-`bitVectorC`, `intVecC`) followed by consistency checks that can only turn a result into
-`Err(InvalidData)`, so the statement is expected to follow from the sequencing lemmas of Proofs/Codec; it is
-not proven.  No `_partial` theorem is stated for them since no part of the truncation law is proven.
+The truncation law of the composite structures (`sparseC`, `rlC`, `wmCoreC`, `wmC`), formerly listed here, is
+proven above (`truncated_composite_structures` and the builder-level corollaries).
 
 Full intended statement, failing sink: for every value `x`, every `Write` sink that accepts `b < 8 * size`
 bytes and then returns the error `e`: `x.serialize(sink) = Err(e)`.
 Missing: the model has no sink for `serialize` (`Codec.ser` is the pure element list); only the writers'
 sink is modelled (budget), and for them the law is `raw_writer_never_reports_incomplete_file` /
-`int_writer_never_reports_incomplete_file`. -/
+`int_writer_never_reports_incomplete_file`.  No theorem is stated for `serialize` with a failing sink — also not
+for the composite structures: it would need a model definition that does not exist.  What the theorems above give
+is the reader's side: whichever strict prefix of the bytes of `x` the sink accepted before failing, loading the
+resulting file is refused with `eof`. -/
 
 /-! ### non-vacuity -/
 
@@ -287,5 +401,45 @@ example : rawVecC.load (ofBytes ((toBytes (rawVecC.ser (RawVec.ofBits [true, fal
   truncated_raw_vector _ (by decide) (by decide) 11 (by decide)
 example : ∀ p ∈ [RawWriter.Push.bit true, RawWriter.Push.int 5 7], p.valid := by
   intro p hp; simp at hp; rcases hp with rfl | rfl <;> simp [RawWriter.Push.valid]
+
+/-- a sparse vector meeting `sparseWF` (3 of 10 positions, low width 2), and **all** 328 strict byte prefixes of
+its 41-element file refused with `eof`, by evaluation -/
+example : ∃ s, Sparse.ofValues 2 10 false [0, 5, 9] = ok s ∧ Codec2.sparseWF s :=
+  have ⟨s, h, _, hwf⟩ := Codec2.ofValues_sparseWF 2 10 false [0, 5, 9] (by decide) (by decide) (by decide)
+    (by decide) (by decide) (by decide) (by decide) (by decide)
+  ⟨s, h, hwf⟩
+example : (do let s ← Sparse.ofValues 2 10 false [0, 5, 9]
+              return (8 * sparseC.size s, (List.range (8 * sparseC.size s)).all fun k =>
+                decide (sparseC.load (ofBytes ((toBytes (sparseC.ser s)).take k)) = fault (.err .eof)))) =
+    ok (328, true) := by decide +kernel
+/-- a wavelet matrix and its core meeting `wmWF` / `wmCoreWF`; the 77-element file of the core cut after 100
+bytes, by evaluation -/
+example : Codec2.wmWF (WM.ofValues [3, 1, 0, 2]) ∧ Codec2.wmCoreWF (WMCore.ofValues [3, 1, 0, 2]) :=
+  ⟨Codec2.ofValues_wmWF _ (by decide) (by decide) (by decide), Codec2.ofValues_wmCoreWF _ (by decide)⟩
+example : (100 : Nat) < 8 * wmCoreC.size (WMCore.ofValues [3, 1, 0, 2]) ∧
+    wmCoreC.load (ofBytes ((toBytes (wmCoreC.ser (WMCore.ofValues [3, 1, 0, 2]))).take 100)) =
+      fault (.err .eof) := by decide +kernel
+/-- a run-length vector meeting `rlWF`, both modes: the accepted history `set_len(10); try_set(10, 5)` satisfies
+all hypotheses of `truncated_built_run_length_vector` -/
+example (m : Mode) : ∃ b v, (∀ c ∈ [RL.BCall.setLen 10, .set 10 5], RL.callArgsOk c) ∧
+    RL.runBCalls m [.setLen 10, .set 10 5] {} = ok b ∧ RL.ofBuilder m b = ok v ∧
+    128 * v.samples.len < 2 ^ 64 ∧ Codec2.rlWF m v := by
+  have hc : ∀ c ∈ [RL.BCall.setLen 10, .set 10 5], RL.callArgsOk c := by
+    intro c hc; simp at hc; rcases hc with rfl | rfl <;> simp [RL.callArgsOk, U64]
+  have h : (do let b ← RL.runBCalls m [.setLen 10, .set 10 5] {}
+               let v ← RL.ofBuilder m b
+               return decide (128 * v.samples.len < 2 ^ 64)) = ok true := by cases m <;> decide +kernel
+  obtain ⟨b, hb, h⟩ := bind_eq_ok h
+  obtain ⟨v, hv, h⟩ := bind_eq_ok h
+  have hs : 128 * v.samples.len < 2 ^ 64 := by
+    injection h with h; exact of_decide_eq_true h
+  exact ⟨b, v, hc, hb, hv, hs, Codec2.build_rlWF m _ hc b hb v hv hs⟩
+/-- … and all 96 strict byte prefixes of its 12-element file are refused with `eof`, by evaluation in both modes -/
+example : ∀ m : Mode, (do let b ← RL.runBCalls m [.setLen 10, .set 10 5] {}
+                          let v ← RL.ofBuilder m b
+                          return (8 * (rlC m).size v, (List.range (8 * (rlC m).size v)).all fun k =>
+                            decide ((rlC m).load (ofBytes ((toBytes ((rlC m).ser v)).take k)) =
+                              fault (.err .eof)))) = ok (96, true) := by
+  intro m; cases m <;> decide +kernel
 
 end Sds.C14
